@@ -54,6 +54,50 @@ def check_stats(ctx, f, where, counting=False):
 
 # ------------------------------------------------------------------------------- Bloom family
 
+def wl_bloom_large_dense(ctx, rng, case):
+    """LARGE Bloom filters (70 KiB .. 350 KiB of bits) in which nearly every byte carries a bit (hand-made hash lists through add_alt): the
+    statistics must still be the standard functions of the true set-bit count X - counted here independently over the exported cells - also
+    for the element count a union / intersection derives, and after a reload"""
+    import probables as P
+
+    est, rate = rng.choice([(60000, 0.01), (70000, 0.01), (140000, 0.01), (40000, 0.0001), (300000, 0.01)])
+    mk = refimpl.bloom_sizing_simple(est, rate)
+    if mk is None:
+        return
+    m, k = mk
+    case.desc = {"kind": "bloom large dense", "est": est, "rate": rate, "bits": m, "hashes": k}
+    sc = bl.Scratch(ctx, case)
+    objs = []
+    try:
+        a = P.BloomFilter(est, rate)
+        b = P.BloomFilterOnDisk(sc.path("ld"), est, rate) if rng.random() < 0.4 else P.BloomFilter(est, rate)
+        objs.append(b)
+        bl.dense_fill(rng, [[a], [b]], m, k, share=rng.choice([0.3, 0.6, 0.9]))
+        for f, tag in ((a, "in memory"), (b, "second operand")):
+            check_stats(ctx, f, f"(large densely filled filter, {tag})")
+        for name, r in (("union", a.union(b)), ("intersection", a.intersection(b))):
+            if r is None or r.elements_added < 0:
+                continue
+            X = popcount_cells(r, False)
+            cand = estimate_candidates(m, k, X)
+            if cand is not None:
+                ctx.check(r.elements_added in cand, f"the element count a {name} derives is not int(-(m/k) ln(1 - X/m)) of its set-bit count (large densely filled filters)",
+                          got=r.elements_added, want=sorted(cand), set_bits=X)
+                ctx.count("statistics_checks")
+        g = P.BloomFilter.frombytes(bytes(a))
+        check_stats(ctx, g, "(large densely filled filter, reloaded)")
+        ctx.count("large_dense_statistics_cases")
+        case.nontrivial = True
+    finally:
+        for o in objs:
+            if hasattr(o, "close"):
+                try:
+                    o.close()
+                except Exception:
+                    pass
+        sc.cleanup()
+
+
 def wl_bloom(ctx, rng, case):
     import probables as P
 
@@ -417,6 +461,7 @@ PROP = Prop(
           "decision or expansion (cuckoo). Distinct by hash of (parameters, operations)."),
     workloads=[
         Workload("bloom", wl_bloom, quick=500, thorough=120000),
+        Workload("bloom_large_dense", wl_bloom_large_dense, quick=5, thorough=80),
         Workload("expanding", wl_expanding, quick=300, thorough=20000),
         Workload("counting", wl_counting, quick=600, thorough=120000),
         Workload("cuckoo", wl_cuckoo, quick=250, thorough=6000),
